@@ -231,7 +231,7 @@ def run_cases(mod, ctx, indices, soft_deadline=None):
 
     for k, v in _M.ENV_COUNTS.items():
         if v:
-            ctx.count("optimize_calls_with_logging:" + k, v)
+            ctx.count(("optimize_calls_with_logging:" + k) if k in ("default", "debug", "disabled") else ("optimize_calls_with:" + k), v)
             _M.ENV_COUNTS[k] = 0
     ctx.case_index = None
 
